@@ -132,6 +132,20 @@ func c06Config(c C06Case) *eval.Config {
 		eval.EnableReportEvent(cc)
 	case 2:
 		eval.EnableDebug(cc)
+	case 3:
+		eval.EnableReportEvent(cc)
+		eval.EnableDebug(cc)
+	}
+	if c.Mask%3 == 0 {
+		// names that are operators / keywords AND registered variables or constants (a config may well
+		// say so); the vocabulary has them anyway, so they turn up in every position, the last included
+		for i, n := range []string{"mod", "version", "in", "not", "c_id", "and", "if", "date", "+", "overlap"} {
+			if i%3 == 2 {
+				cc.ConstantMap[n] = int64(i)
+			} else {
+				cc.VariableKeyMap[n] = eval.VariableKey(600 + i)
+			}
+		}
 	}
 	for i, n := range soupNames {
 		if !c.Undef || i%2 == 0 {
